@@ -525,8 +525,10 @@ def run(S):
     from checks.C13 import rule_atom
     rule_atom(S)
     # fin drains the GC queues only after the threads that fill them are joined (shared with C16)
-    from checks.C16 import rule_fin
+    from checks.C16 import rule_fin, rule_emp
     rule_fin(S)
+    # destroy() releases every tree, the catalogue tree among them, on every path (shared with C16)
+    rule_emp(S)
     rule_drain(S)
     rule_destroy(S)
     rule_root(S)
